@@ -153,7 +153,7 @@ def run_history(case):
         rid = case["id"] * 100
         if st != "ok" or not os.path.isfile(out):
             recs.append(dict(base, id=rid, op="open", status="create:" + st, clauses=case["open_clauses"],
-                             meta={"decodable": False}))
+                             meta={"decodable": False}, refusable=bool(case.get("refusable"))))
             return recs
         with open(out, "rb") as fh:
             raw = fh.read()
@@ -194,7 +194,8 @@ def run_history(case):
             raw = bencode(d)
             with open(out, "wb") as fh:
                 fh.write(raw)
-        recs.append(dict(base, id=rid, op="open", status="ok", clauses=case["open_clauses"], meta=observe(raw)))
+        recs.append(dict(base, id=rid, op="open", status="ok", clauses=case["open_clauses"], meta=observe(raw),
+                         refusable=bool(case.get("refusable"))))
         from torrentfile.edit import edit_torrent
         from torrentfile.cli import execute
         abs_out = out
